@@ -3,41 +3,32 @@
       fragment block     Frag/StripImpl (fragment_split, strip_bonding_descriptors: clean SMILES, descriptors, SLASH MARKS,
                          annotations), Frag/SmilesParse.smiles_parse (pysmiles' parser), Frag/Template.assemble
       one resolve()      Resolve/PipelineFull.resolve_step_full (bonding, squash, hydrogens, sort, Stereo/EzImpl, names)
-    What this file adds is the end of pysmiles_utils.read_fragment_smiles: the template as a networkx graph whose nodes are
-    the atoms of the text in text order, `atomname`, and `ez_isomer_class` = the last character of the mark stored for a key
-    that is a node (set_node_attributes ignores the others).  [marked_template] is compared with the implementation's
-    fragment graphs on every run (EzCheck.frag_ok: element, chiral, ez_isomer_class, bonding, edges with order).
-    LIMIT: `hcount` of an atom written without brackets is set to 0 here (pysmiles would count its implicit hydrogens).
-    rebuild_h_atoms resets every hcount and recomputes it from elements, charges and bonds, so the molecule after the
-    hydrogen step - hence the sorted and the returned molecule - does not depend on it; the graphs BEFORE the hydrogen step
-    (fo_m2, fo_m3) do and are not claimed.  [resolve_string] is compared with the implementation on every string case of
+    The end of pysmiles_utils.read_fragment_smiles is the strip component's final template (Frag/TemplateFinal.v) as a
+    networkx graph (Frag/TemplateGraph.v): nodes = the atoms of the text in text order, `atomname`, `ez_isomer_class` = the
+    mark stored for the atom, hcount as pysmiles' fill_valence leaves it.  [marked_template] is compared with the
+    implementation's fragment graphs on every run (EzCheck.frag_ok: element, chiral, ez_isomer_class, bonding, edges with
+    order).  [resolve_string] is compared with the implementation on every string case of
     the C15 check (EzCheck.string_ok: sorted and returned molecule on element, fragid, chiral, ez_*, bond orders). *)
 From Coq Require Import String.
 From Coq Require Import List Ascii ZArith Bool.
-From CGV Require Import Base.PyBase Base.PyVal Base.NxGraph Dialect.DialectImpl Frag.NDict Frag.StripImpl Frag.SmilesParse Frag.Template
+From CGV Require Import Base.PyBase Base.PyVal Base.NxGraph Dialect.DialectImpl Frag.NDict Frag.StripImpl Frag.SmilesParse Frag.Template Frag.TemplateFinal Frag.TemplateGraph
      Reader.ReaderImpl Resolve.Bonding Resolve.GraphOps Resolve.Pipeline Resolve.PipelineFull Stereo.EzImpl.
 From CGV Require Hydro.Squash.
 Import ListNotations.
 Open Scope Z_scope.
 
-Definition with_defaults (i : nat) (a : attrs) : attrs :=
-  let a1 := match aget (S "hcount") a with Some _ => a | None => aset (S "hcount") (VInt 0) a end in
-  match aget (S "element") a1 with
-  | Some (VStr e) => aset (S "atomname") (VStr (e ++ str_of_nat i)) a1
-  | _ => a1
-  end.
-
-(** the fragment graph read_fragment_smiles returns for one fragment text *)
+(** the fragment graph read_fragment_smiles returns for one fragment text: strip_bonding_descriptors, pysmiles' parser
+    (Frag/SmilesParse), then the FINAL template of the strip component (Frag/TemplateFinal.final_assemble: fragname /
+    fragid / weight / bonding / annotations, `atomname`, the slash marks as `ez_isomer_class`, hcount after fill_valence)
+    as a networkx graph (Frag/TemplateGraph.tmpl_graph: nodes 0..n-1 in text order, adjacency in bond-creation order).
+    = tmpl_graph of Frag/TemplateFinal.fragment_template_final ([marked_template_final]), so the strip component's
+    [template_is_template] applies to it (Stereo/EzStringCut.v). *)
 Definition marked_template (fo : float_oracle) (name text : pystr) : res graph :=
   '(clean, d, ez, a) <- strip_bonding_descriptors fo text ;;
   let smiles_str := if str_eqb clean (S "H") then S "[H]" else clean in
   G <- smiles_parse smiles_str ;;
-  let t := assemble name G d a in
-  let g0 := fold_left (fun acc ia => add_node acc (Z.of_nat (fst ia)) (with_defaults (fst ia) (snd ia)))
-                      (combine (seq 0 (length (t_nodes t))) (t_nodes t)) gempty in
-  let g1 := fold_left (fun acc e => let '(u, v, o) := e in add_edge acc (Z.of_nat u) (Z.of_nat v) [(S "order", o)]) (t_edges t) g0 in
-  (* a fragment of ONE atom returns before the marks are stored ... unless /repo d472632: it stores them first *)
-  Ok (set_nodes_from g1 (S "ez_isomer_class") (map (fun kc => (Z.of_nat (fst kc), VStr [snd kc])) ez)).
+  T0 <- final_assemble name G d ez a ;;
+  Ok (tmpl_graph T0).
 
 (** read_fragments(block, all_atom=True): the first definition of a name wins *)
 Fixpoint fd_add (name : pystr) (g : graph) (fd : fragdict) : fragdict :=
